@@ -554,3 +554,19 @@ def is_websocket_request(server, environ):
 def fresh_obj(x):
     """Verifier primitive (allocated during the call); natively not observable."""
     return True
+
+
+# --- C20: middleware routing and static files -----------------------------------------------------
+
+def has_dotdot(rest):
+    """The relative path `rest` contains a '..' path segment."""
+    return '..' in rest.split('/')
+
+
+def norm_endpoint(ep):
+    """The endpoint with a leading and a trailing slash."""
+    if not ep.startswith('/'):
+        ep = '/' + ep
+    if not ep.endswith('/'):
+        ep = ep + '/'
+    return ep
